@@ -303,6 +303,8 @@ def enum_value_attr(ev, name):
         return ops.wrap_int(V.enum_table(ev.cls, ev.idx, lambda m: getattr(m.value, name)))
     if callable(first):
         return MethodRef('enumvalue', name, ev)
+    if all(isinstance(v, str) for v in vals) and all(v.isascii() for v in vals):
+        return enum_str_value(ev.cls, ev.idx, vals)
     if all(isinstance(v, str) for v in vals):
         return SAbs(('enum_str', ev.cls, name), ev.idx, str)
     non_none = [v for v in vals if v is not None]
@@ -337,6 +339,28 @@ def enum_value_attr(ev, name):
         if P.branch(z3.Or(*[ev.idx == k for k in ks])):
             return v
     return groups[-1][0]
+
+
+def enum_str_value(cls, idx, vals):
+    """string attribute of the params of a symbolic enum member, as symbolic ascii text (table over the members)"""
+    raws = [v.encode('ascii') for v in vals]
+    n = V.enum_table(cls, idx, lambda m, ms=list(cls): len(raws[ms.index(m)]))
+
+    def at(i, raws=raws, idx=idx):
+        i = V.iv(i)
+        e = z3.IntVal(0)
+        for k in range(len(raws) - 1, -1, -1):
+            r = raws[k]
+            if V.is_conc_int(V.simp(i)):
+                c = V.simp(i).as_long()
+                byte = z3.IntVal(r[c]) if 0 <= c < len(r) else z3.IntVal(0)
+            else:
+                byte = z3.IntVal(0)
+                for p in range(len(r) - 1, -1, -1):
+                    byte = z3.If(i == p, z3.IntVal(r[p]), byte)
+            e = z3.If(idx == k, byte, e)
+        return e
+    return SStr(SSeq(n, at, 'bytes'), 'ascii')
 
 
 def setattr_(o, name, v):
@@ -663,9 +687,17 @@ def enum_lookup(cls, args, kw):
 
 
 # ----------------------------------------------------------------------------------------------- calls
+def lift_result(r):
+    """a ComposerBinary/ParserBinary created by natively executed repository code is continued symbolically"""
+    from cryptoparser.common.parse import ComposerBase, ParserBase
+    if isinstance(r, (ComposerBase, ParserBase)):
+        return SObj(type(r), dict(vars(r)))
+    return r
+
+
 def native(f, args, kw):
     try:
-        return f(*args, **kw)
+        return lift_result(f(*args, **kw))
     except E.PyRaise:
         raise
     except (E.Unsupported, E.PathEnd, E.Infeasible):
